@@ -35,10 +35,16 @@ class C17(Check):
                   'are regenerated from the source on every run and proved equal to the standard. The model is tied to the code by '
                   'running the extracted model, the extracted spec and the ASan/UBSan build of the working tree on the same '
                   'histories (results, byte counter, the eight state words and the 64-byte block buffer - stale bytes included - compared '
-                  'after every operation).')
-    level_note = ('Trusted: Coq kernel, the FIPS 180-4 / RFC 2104 transcription (ShaSpec.v; guarded by three known-answer Examples: '
-                  'FIPS "abc", RFC 4231 cases 2 and 6, and by python hashlib/hmac in extra_checks), extraction + OCaml driver, harness, '
-                  'table translator. Side conditions of the theorems: bytes are 0..255 and everything that is finalized is shorter '
+                  'after every operation); the histories include messages of 8191, 8192, 8193 and 65575 bytes and hmac over 8192 '
+                  'hashed bytes (1 MiB in the thorough tier), so the bit-length field is exercised up to its third byte by model and spec.')
+    level_note = ('Trusted: Coq kernel, the FIPS 180-4 / RFC 2104 transcription (ShaSpec.v; guarded by five known-answer Examples: '
+                  'FIPS "abc", RFC 4231 cases 2 and 6, HMAC with a key of exactly 64 bytes (NIST CSRC example) and of 65 bytes, '
+                  'and by python hashlib/hmac in extra_checks), extraction + OCaml driver, harness, '
+                  'table translator (strict: gen/tables.py, self-test tools/test_tables.py). Code-level validation of long messages: '
+                  'the extracted model and spec run at ~10 KB/s, so beyond 64 KiB (1 MiB in thorough) the tie is not model/spec '
+                  'against code but python hashlib against code (stream `huge`, op updrepx: 1, 2 and 3 MiB in quick; 2^29 + 8 KiB '
+                  'and 2^32 + 4 MiB bytes in thorough - there a 32-bit `count << 3` and a 32-bit byte counter wrap); bytes 0..2 of '
+                  'the 8-byte length field (messages >= 2^37 bytes) are never non-zero in any run. Side conditions of the theorems: bytes are 0..255 and everything that is finalized is shorter '
                   'than 2^61 bytes (beyond that the 64-bit bit counter of the code wraps; not reachable by a test). The theorems are '
                   'about the model; that the C++ computes what the model computes is validated by correspondence only (no clause of '
                   'the property is left unproved on the model side). RFC 4231 is a set of test vectors for RFC 2104: two of them are '
@@ -46,7 +52,9 @@ class C17(Check):
     rule = ('cases = histories of update/finalize/reset/hash/hmac on one hasher; message lengths sweep the padding '
             'boundaries (0..300), 2- and 3-way chunkings, key lengths 0..200 across the block size; a case is '
             'non-trivial when it absorbs at least 56 bytes (more than one padding layout) or uses hmac or reuses the '
-            'hasher after finalize/reset; distinct = distinct op text')
+            'hasher after finalize/reset; long messages: 8191..8193 bytes, 64 KiB + 39 bytes (op updrep = the same chunk '
+            'absorbed n times) through model and spec, 1/2/3 MiB (thorough: 2^29+, 2^32+ bytes) through op updrepx judged by '
+            'python hashlib; distinct = distinct op text')
     assumptions = ['message length < 2^61 bytes (bit counter of the code wraps beyond)',
                    'input bytes are in 0..255 (wf_bytes)',
                    'FIPS 180-4 / RFC 2104 transcription in coq/Sha/ShaSpec.v (guarded by known-answer Examples)']
